@@ -14,7 +14,13 @@ def error_text(I, e):
     return list(f.out)
 
 
+def kind_for(I, T):
+    """the small-string type parameter is SmartString with the smartstring feature and String (the crate's alias) without it"""
+    return 'String' if T == 'SmallString' and 'smartstring' not in I.prog.features else T
+
+
 def outcome(I, T, s):
+    T = kind_for(I, T)
     r = from_str(I, T, s)
     if r.variant == 'Err':
         return ('err', err_name(r.fields[0]), error_text(I, r.fields[0]))
@@ -23,6 +29,7 @@ def outcome(I, T, s):
 
 
 def outcome_build(I, T, tyb, name, steps):
+    T = kind_for(I, T)
     b = b_new(I, T, mk_type(I, T, tyb), name)
     for m, *args in steps:
         b = b_call(I, T, b, m, *args)
@@ -130,6 +137,11 @@ def queries(tier):
     addp('String', ['pkg:t/n?checksum=a:', ('hole', 'h', 2 if th else 1), ',B:', ('hole', 'g', 2 if th else 1)], ALL)
     for parts in STRUCT_TEMPLATES(1 if th else 0) + LONG_TEMPLATES():
         addp('String', parts, ALL)
+    # the small-string type parameter itself (SmartString with the feature, String without)
+    for n in lens(4 if th else 3):
+        addp('SmallString', ['pkg:', ('hole', 'h', n)], ALL)
+    for sl in SLOTS_MIN:
+        addp('SmallString', fill(sl, 2), ALL)
     # typed API exists with and without smartstring
     for ty in PT_VARIANTS:
         for n in lens(3 if th else 2, 1):
@@ -141,7 +153,7 @@ def queries(tier):
     addp('String', ['pkg:t/n?checksum=', ('hole', 'h', 4), ':'], ALL)
     for n in lens(4 if th else 2):
         for steps in ([], [('with_namespace', ('hole', 'a', 1)), ('with_version', ('hole', 'b', 1)), ('with_qualifier', ('hole', 'k', 1), ('hole', 'v', 1)), ('with_subpath', ('hole', 'c', 1))]):
-            for T in ('String', 'CowB'):
+            for T in ('String', 'CowB', 'SmallString'):
                 qs.append(Query('%s build type=⟦%d⟧ %s [%s]' % (T, n, 'full' if steps else 'minimal', '|'.join(ALL)), h_build, {'T': T, 'n': n, 'steps': steps, 'sets': ALL},
                                 bound='builder with a free %d-byte type string%s, feature sets %s' % (n, ' and free one-byte fields' if steps else '', ALL), prog='default'))
     return qs
